@@ -2852,7 +2852,10 @@ func (d *decoderBincBytes) arrayEnd() {
 func (d *decoderBincBytes) interfaceExtConvertAndDecode(v interface{}, ext InterfaceExt) {
 
 	var vv interface{}
+
+	d.depthIncr()
 	d.decode(&vv)
+	d.depthDecr()
 	ext.UpdateExt(v, vv)
 
 }
@@ -6955,7 +6958,10 @@ func (d *decoderBincIO) arrayEnd() {
 func (d *decoderBincIO) interfaceExtConvertAndDecode(v interface{}, ext InterfaceExt) {
 
 	var vv interface{}
+
+	d.depthIncr()
 	d.decode(&vv)
+	d.depthDecr()
 	ext.UpdateExt(v, vv)
 
 }
